@@ -29,7 +29,8 @@ RULE = ("QFT: Hypothesis-generated registers (0-5 distinct qubits in any order, 
         "methods time/repeat, CircuitUnitary circuits V^-1 D V with dyadic PHASE/RZ/CPHASE/CRZ (control_method all/variational, unitary Circuit with or without a fixed n_qubits); "
         "eigenstates prepared by gates or StateVector.initializing_circuit; oracle = eigenphase computed from the reference "
         "matrices; QPE (cirq, n_shots=None) must return it exactly with winning probability >= 1-1e-9; iterative QPE (1-4 shots, "
-        "pinned numpy seed) must return it in every shot. Non-trivial = phase with >= 2 non-zero bits. "
+        "pinned numpy seed) must return it in every shot; on the same solver object simulate() is repeated 1-2 times and once more after a second build(), "
+        "with the same required answer each time (reference circuit non-empty in the normal case). Non-trivial = phase with >= 2 non-zero bits. "
         "Distinct = distinct canonical JSON of the case.")
 ASSUMPTIONS = ["numpy linear algebra; reference gate table vlib/refsim.py (self-tested)",
                "DFT sign/ordering convention: F[y,x] = exp(+2 pi i x y / 2^k)/sqrt(2^k), first listed qubit = least significant bit; "
@@ -313,6 +314,10 @@ def pe_cases(draw, iterative, max_m, max_state):
                      "method": draw(st.sampled_from(["time", "repeat"]))})
     if iterative:
         case["shots"] = draw(st.integers(1, 4))
+    # the eigenstate preparation (reference circuit) is non-empty in the normal case
+    if "bits" in case and not any(case["bits"]) and draw(st.integers(0, 4)) > 0:
+        case["bits"][draw(st.integers(0, len(case["bits"]) - 1))] = 1
+    case["resim"] = draw(st.integers(1, 2))      # number of further simulate() calls on the same built solver
     return case
 
 
@@ -440,30 +445,52 @@ def pe_body_factory(ctx):
                                sig="circuit-unitary:fixed-width-circuit") from e
                 raise
 
+        # schedule on ONE solver object: build, simulate, simulate again (1-2 times), build again, simulate
+        schedule = ["simulate"] + ["simulate"] * int(case.get("resim", 1)) + ["build", "simulate"]
+        if len(ref_state._gates) > 0:
+            labels.add("non-empty-reference")
+        else:
+            labels.add("empty-reference")
         if case["solver"] == "qpe":
             opts["backend_options"] = {"target": "cirq"}
             s = QPESolver(opts)
             guard(s.build)
-            val = s.simulate()
-            pmax = max(s.qpe_freqs.values())
-            if s.bitstring != bits_expected or abs(val - phi) > 1e-12:
-                raise Fail(f"QPE returned {val} (bitstring {s.bitstring}, p={pmax:.6g}), expected (-E t/2pi) mod 1 = {phi} ({bits_expected})",
-                           sig=f"qpe:value:{kind}", got=val, expected=phi)
-            if pmax < 1 - 1e-9:
-                raise Fail(f"QPE winning bitstring {s.bitstring} has probability {pmax}", sig=f"qpe:certainty:{kind}")
+            k = 0
+            for step in schedule:
+                if step == "build":
+                    guard(s.build)
+                    continue
+                k += 1
+                val = s.simulate()
+                pmax = max(s.qpe_freqs.values())
+                tag = "" if k == 1 else ":repeated-simulate" if k <= 1 + int(case.get("resim", 1)) else ":after-rebuild"
+                if s.bitstring != bits_expected or abs(val - phi) > 1e-12:
+                    raise Fail(f"QPE simulate() #{k}{tag} returned {val} (bitstring {s.bitstring}, p={pmax:.6g}), expected (-E t/2pi) mod 1 = {phi} "
+                               f"({bits_expected})", sig=f"qpe:value:{kind}{tag}", got=val, expected=phi)
+                if pmax < 1 - 1e-9:
+                    raise Fail(f"QPE simulate() #{k}{tag}: winning bitstring {s.bitstring} has probability {pmax}", sig=f"qpe:certainty:{kind}{tag}")
+            labels.add(f"simulate-calls={k}")
         else:
             N = case["shots"]
             opts["backend_options"] = {"target": "cirq", "n_shots": N}
             s = IterativeQPESolver(opts)
             guard(s.build)
-            ctx.np_seed(case)
-            val = guard(s.simulate)
-            if set(s.qpe_freqs) != {bits_expected} or abs(val - phi) > 1e-12:
-                raise Fail(f"iterative QPE ({N} shots) returned {val} with outcomes {s.qpe_freqs}, expected {phi} ({bits_expected}) in every shot",
-                           sig=f"iqpe:value:{kind}", got=val, expected=phi)
-            if abs(sum(s.qpe_freqs.values()) - 1) > 1e-12:
-                raise Fail(f"iterative QPE frequencies {s.qpe_freqs} do not sum to one", sig="iqpe:freqs")
+            k = 0
+            for step in schedule:
+                if step == "build":
+                    guard(s.build)
+                    continue
+                k += 1
+                ctx.np_seed({"case": case, "call": k})
+                val = guard(s.simulate)
+                tag = "" if k == 1 else ":repeated-simulate" if k <= 1 + int(case.get("resim", 1)) else ":after-rebuild"
+                if set(s.qpe_freqs) != {bits_expected} or abs(val - phi) > 1e-12:
+                    raise Fail(f"iterative QPE ({N} shots) simulate() #{k}{tag} returned {val} with outcomes {s.qpe_freqs}, expected {phi} "
+                               f"({bits_expected}) in every shot", sig=f"iqpe:value:{kind}{tag}", got=val, expected=phi)
+                if abs(sum(s.qpe_freqs.values()) - 1) > 1e-12:
+                    raise Fail(f"iterative QPE frequencies {s.qpe_freqs} do not sum to one", sig="iqpe:freqs")
             labels.add(f"shots={N}")
+            labels.add(f"simulate-calls={k}")
         nbits = bin(kphi).count("1")
         labels.add("phase-bits=" + ("0" if nbits == 0 else "1" if nbits == 1 else ">=2"))
         return nbits >= 2, labels
